@@ -32,6 +32,12 @@ func getController(name string) (*Controller, error) {
 	controllersLock.Lock()
 	defer controllersLock.Unlock()
 
+	// Check again, the database may have been started while waiting for the lock.
+	controller, ok = controllers[name]
+	if ok {
+		return controller, nil
+	}
+
 	if shuttingDown.IsSet() {
 		return nil, ErrShuttingDown
 	}
